@@ -240,9 +240,13 @@ def _status_of(pl):
     return None
 
 
-def pred_c08(script, go, cls):
+def pred_c08(script, go, cls, walk=False):
     """the property itself on what Go did. returns list of (signature, text).
-    cls = classify_first entry of the script (the reference's reading of the first message)."""
+    cls = classify_first entry of the script (the reference's reading of the first message).
+    walk=True (random walks, checks/client_walk.py): callers through the unexported send are not judged (ungated by design), a caller's
+    own GetSupportedVersion / SetProtocolVersion frames are not told from negotiate's and therefore not judged, a frame the peer sends
+    with the id of the outstanding negotiation message is its reply, and as soon as the script does something during setup that this
+    bookkeeping cannot follow (a cut frame, a write failure, a batch) the clauses about negotiation are dropped for the rest of the walk."""
     bad = []
     steps, obs = script["steps"], go.get("obs") or []
     conn = next((s for s in steps if s["op"] == "connect"), None)
@@ -252,6 +256,8 @@ def pred_c08(script, go, cls):
     reqs = {}
     for st in steps:
         if st["op"] == "send":
+            if walk and (st.get("api") == "send" or st["typ"] in (cc.T_GSV, cc.T_SPV, cc.T_ACK)):
+                continue
             n = st.get("len", 0)
             reqs[st["caller"]] = (st["typ"], n, cc.tag_hash(n, st.get("tag", 0) if n else 0))
         elif st["op"] == "shutdown":
@@ -266,6 +272,8 @@ def pred_c08(script, go, cls):
     seen = []                  # frames the peer has read
     caller_frame_seen = False
     peer_closed = False
+    neg_answered = set()
+    own_neg_types = any(st["op"] == "send" and st["typ"] in (cc.T_GSV, cc.T_SPV) for st in steps)
 
     def note(sig, text):
         if sig not in [b[0] for b in bad]:
@@ -290,13 +298,13 @@ def pred_c08(script, go, cls):
         is_caller = key in req_keys
         if is_caller:
             caller_frame_seen = True
-            if setup != "done":
+            if setup not in ("done", "unknown"):
                 note("early-request-before-negotiation-complete" if setup == "pending" else "request-written-after-failed-setup",
                      "step %d: request of caller %s (typ %d) reached the wire while setup was %s" % (i, req_keys[key], f["typ"], setup))
         elif f["typ"] in (cc.T_GSV, cc.T_SPV):
-            if caller_frame_seen:
+            if caller_frame_seen and not (walk and own_neg_types):
                 note("negotiation-frame-after-request", "step %d: negotiation frame typ %d follows a caller's request" % (i, f["typ"]))
-            if version < 2:
+            if version < 2 and not (walk and own_neg_types):
                 note("negotiation-by-1.0.1-client", "step %d: a client configured for 1.0.1 wrote negotiation frame typ %d" % (i, f["typ"]))
 
     for i, (st, o) in enumerate(zip(steps, obs)):
@@ -315,17 +323,31 @@ def pred_c08(script, go, cls):
                 setup = "failed"
         if op == "peer_close":
             peer_closed = True
-        if op == "reply" and delivered and good is True and setup == "pending" and o.get("st") == "ok":
-            to = st["to"]
-            if 0 <= to < len(seen):
-                rq = seen[to]
+        if walk and setup == "pending" and delivered and i != first_step and (
+                op in ("write_fail", "peer_batch", "release_write", "close", "peer_close") or
+                (op in ("peer_send", "keepalive", "reply") and (st.get("cut") is not None or st.get("skip") is not None))):
+            setup = "unknown"
+        # the reply to the outstanding negotiation message: a `reply` step aimed at it, or (walks) a frame the peer sends with its id.
+        # Reader-initiated types (61, 62, 63) are never taken for replies.
+        rq = None
+        negs = [f for f in seen if f["typ"] in (cc.T_GSV, cc.T_SPV) and (f["typ"], f.get("len"), f.get("hash")) not in req_keys]
+        outstanding = negs[-1] if negs and id(negs[-1]) not in neg_answered else None
+        if op in ("reply", "peer_send") and i != first_step and st.get("typ") not in cc.UNSOLICITED and setup == "pending" and delivered:
+            fid = st.get("id", 0) if op == "peer_send" else (seen[st["to"]].get("id") if 0 <= st["to"] < len(seen) else None)
+            if outstanding is not None and fid is not None and outstanding.get("id") == fid:
+                rq = outstanding        # (replies are correlated by message id, whatever frame the script aimed at)
+            elif walk:
+                setup = "unknown"       # an inbound reply-like frame this bookkeeping cannot place (e.g. it arrives before the peer has read the request)
+        if rq is not None and delivered and good is True and setup == "pending" and o.get("st") == "ok":
+            neg_answered.add(id(rq))
+            if True:
                 code = _status_of(st.get("pl"))
                 pl = st.get("pl") or {}
                 if rq["typ"] == cc.T_GSV:
                     if st["typ"] == cc.T_GSVR and pl.get("k") == "gsvr" and code == 0:
                         v = min(2, pl.get("max", 0))
                         setup = "done" if pl.get("cur", 0) == v else "pending"
-                    elif st["typ"] == cc.T_ERR and pl.get("k") == "status" and code in (0, 110):
+                    elif st["typ"] == cc.T_ERR and pl.get("k") == "status" and code == 110:   # the 1.0.1 reader; ErrorMessage/Success is no answer (6e714d1)
                         setup = "done"
                     else:
                         setup = "failed"
@@ -338,6 +360,12 @@ def pred_c08(script, go, cls):
             if delivered and good is False and (o.get("closed") is False):
                 note("attempt-proceeds-on-bad-first-message:" + cls["cls"],
                      "step %d: the client is not closed after a first message that is %s" % (i, cls["cls"]))
+        if setup == "failed" and delivered and good is True and (
+                (op in ("state", "wait_ready") and o.get("ready") and o.get("closed") is False) or
+                (op == "wait_connect" and o.get("res") in ("blocked", "nil"))):
+            note("setup-succeeds-though-negotiation-was-not-confirmed",
+                 "step %d: the reader's answers did not complete version negotiation (only an expected-type response with status Success does), "
+                 "yet %s" % (i, "the ready gate is open on a live client" if op != "wait_connect" else "Connect has not failed (%s)" % o.get("res")))
         if op == "wait_connect" and delivered and good is False and o.get("res") in ("blocked", "nil"):
             note("attempt-proceeds-on-bad-first-message:" + cls["cls"],
                  "step %d: Connect has not failed (%s) after a first message that is %s" % (i, o.get("res"), cls["cls"]))
@@ -348,7 +376,7 @@ def pred_c08(script, go, cls):
             r = o.get("res")
             failed_now = (delivered and good is False) or setup == "failed" or (good is None and peer_closed and delivered is False and
                                                                                  first_step is not None and i > first_step)
-            if r in ("ok", "sent", "nil") and not failed_now and not (delivered and good is True and setup == "done"):
+            if r in ("ok", "sent", "nil") and not failed_now and setup != "unknown" and not (delivered and good is True and setup == "done"):
                 note("early-caller-returns-before-setup-complete", "step %d: caller %d (typ %d) returned %s while setup was %s — a request is held back "
                      "until version negotiation has completed; it cannot have been sent" % (
                          i, st["caller"], reqs[st["caller"]][0], r, setup if delivered else "waiting for the first message"))
@@ -363,6 +391,8 @@ def pred_c08(script, go, cls):
              "connection event was accepted (first message: %s)" % (fs["wcalls"], fs.get("nwritten", 0), cls["cls"]))
     if not (delivered and good is True) or setup == "failed":
         for c, r in (fin.get("callers") or {}).items():
+            if walk and int(c) not in reqs:
+                continue
             if r.get("res") in ("ok", "sent", "nil"):
                 note("caller-succeeds-after-failed-setup", "caller %s ended with %s though setup failed" % (c, r.get("res")))
     if fin.get("panics"):
@@ -431,3 +461,79 @@ def corruptions(tree):
             out.append(("%s-len%d-of-%d-lenonly" % (name, v, tl), ser(tree, (), path, v, False)))
             out.append(("%s-len%d-of-%d-resized" % (name, v, tl), ser(tree, (), path, v, True)))
     return out
+
+
+# ---------------------------------------------------------------- random walks (checks/client_walk.py) with the C08 / C09 predicates
+def walk_c08_applicable(script):
+    """the C08 predicate needs to know which inbound frame is the first message and when it is complete: not when it comes inside a
+    batch, or cut with its rest sent later"""
+    fo = first_of(script)
+    if fo is None or fo["kind"] == "none" and fo.get("step") is None:
+        return fo is not None
+    ci = next(i for i, st in enumerate(script["steps"]) if st["op"] == "connect")
+    upto = fo["step"] if fo.get("step") is not None else len(script["steps"])
+    if any(st["op"] == "peer_batch" for st in script["steps"][ci:upto + 1]):
+        return False
+    if fo["kind"] == "cut" and any(st.get("skip") is not None for st in script["steps"]):
+        return False
+    return True
+
+
+def run_walks(res, pid, exe, scripts, pred, reported, shards=8, budget_s=10.0):
+    """walks on Go and on the model (variant picked per run); `pred(script, go) -> [(sig, text)]` is the check's own predicate on Go's
+    observation. A predicate failure must show again when the walk is run alone; it is shrunk (lint + well-formedness on every
+    candidate) and filed with the script as replay. returns evidence counters."""
+    import client_walk as cw
+    for s_ in scripts:
+        s_.setdefault("step_ms", 1500)
+    go, _ = cc.run_go(exe, scripts, shards=shards)
+    variant, ml, counts = cw.pick_variant(scripts, go)
+    if ml is None or len(ml) != len(scripts):
+        res.violation("oracle-run", "oracle answered %s of %d walks" % (len(ml) if ml else 0, len(scripts)), dict(kind="oracle"), False)
+        return dict(evals=0)
+    n_fail = n_dis = n_shrunk = 0
+
+    def still(sig):
+        def f(sc):
+            if not cw.lint(sc, variant):
+                return False
+            g, _ = cc.run_go(exe, [sc], shards=1)
+            if not g or g[0] is None or not cw.well_formed(sc, g[0]):
+                return False
+            m = cc.run_model([sc], variant)
+            if not m or m[0].startswith("error") or " bad" in m[0].partition(" | ")[0]:
+                return False
+            return any(sg == sig for sg, _ in pred(sc, g[0]))
+        return f
+
+    for s, g, m in zip(scripts, go, ml):
+        if g is None or g.get("st") in ("watchdog", "skipped", "crash") or "harness_panic" in g:
+            if "harness-run" not in reported:
+                reported.add("harness-run")
+                res.violation("harness-run", "no observation for walk %s: %s" % (s["id"], str(g)[:300]), dict(kind="harness", script=s), False)
+            continue
+        bad = [(sg, t) for sg, t in pred(s, g) if sg not in reported]
+        if bad:
+            g2, _ = cc.run_go(exe, [s], shards=1)
+            again = {sg for sg, _ in pred(s, g2[0])} if g2 and g2[0] is not None and not g2[0].get("st") else set()
+            bad = [(sg, t) for sg, t in bad if sg in again]
+        if bad:
+            n_fail += 1
+        for sg, text in bad:
+            if sg in reported:
+                continue
+            reported.add(sg)
+            n_shrunk += 1
+            small = cc.shrink(s, still(sg), budget_s=budget_s) if n_shrunk <= 2 else s
+            res.violation(sg, "%s [walk %s, %d steps, %d after shrinking]" % (text, s["id"], len(s["steps"]), len(small["steps"])),
+                          dict(kind="script", script=small, theorem="%s_*" % pid))
+        if not bad and cc.compare(s, g, m):
+            d2, _ = cc.recheck(exe, s, variant)
+            if d2:
+                n_dis += 1
+                if "correspondence-walk" not in reported:
+                    reported.add("correspondence-walk")
+                    res.violation("correspondence:%s/walk" % pid, "Go and the model disagree on walk %s (%d steps) though the property predicate holds on "
+                                  "Go's run: %s" % (s["id"], len(s["steps"]), "; ".join(d2[:4])),
+                                  dict(kind="correspondence", correspondence="%s/client-walk" % pid, script=s, differences=d2[:10]), False)
+    return dict(evals=len(scripts), failing=n_fail, disagreeing=n_dis, variant=variant, variant_counts=counts)
